@@ -326,6 +326,18 @@ pub fn check_session(s: &Session, rec: &mut CaseRec) -> Verdict {
                 if r.state != St::Idle {
                     return Verdict::fail("not-idle-after-error", format!("intent #{} {:?}: state {:?} after {}", ii, intent, r.state, e.text));
                 }
+                if e.kind == ErrKind::SyntaxTokenization {
+                    // the offending source line of a tokenization error is the line just submitted
+                    // (it was not stored, so the error is not "IN" any program line)
+                    if let (CallKind::Line, Some(t)) = (kind, text.as_deref()) {
+                        if e.line.is_some() || e.caret.len() != 2 || e.caret[0] != t {
+                            return Verdict::fail(
+                                "tokenization-error-shows-wrong-line",
+                                format!("intent #{}: submitted {:?}; error {:?} renders {:?}", ii, t, e.text, e.caret),
+                            );
+                        }
+                    }
+                }
                 if e.line.is_some() && e.caret.len() != 2 {
                     // an error located on a program line can always be shown with that line
                     return Verdict::fail("no-source-line-for-located-error", format!("intent #{} {:?}: error {} renders {:?}", ii, intent, e.text, e.caret));
